@@ -195,15 +195,20 @@ namespace pika {
         {
             PIKA_ASSERT(update <= expected);
 
+            PIKA_VERIF_POINT("bar.enter", &base, update, 0);
             auto const old_phase = phase.load(std::memory_order_relaxed);
+            PIKA_VERIF_POST("bar.arrive", &base, old_phase, expected);
             while (update != 0)
             {
                 if (base.arrive(expected, old_phase))
                 {
+                    PIKA_VERIF_POST("bar.last", &base, old_phase, expected);
                     completion();
                     expected += expected_adjustment.load(std::memory_order_relaxed);
                     expected_adjustment.store(0, std::memory_order_relaxed);
+                    PIKA_VERIF_POINT("bar.publish", &base, 0, 0);
                     phase.store(old_phase + 2, std::memory_order_release);
+                    PIKA_VERIF_POST("bar.phase", &base, static_cast<detail::barrier_phase_t>(old_phase + 2), expected);
                 }
 
                 --update;
@@ -232,6 +237,7 @@ namespace pika {
             auto const poll = [&]() {
                 // The original libc++ implementation uses the inverse condition here, since it
                 // polls until the condition is true. Here we poll as long as the condition is true.
+                PIKA_VERIF_POINT("bar.poll", &base, old_phase, 0);
                 return phase.load(std::memory_order_acquire) == old_phase;
             };
 
@@ -269,7 +275,9 @@ namespace pika {
         //        phase to start.- end note]
         void arrive_and_drop()
         {
+            PIKA_VERIF_POINT("bar.drop", &base, 0, 0);
             expected_adjustment.fetch_sub(1, std::memory_order_relaxed);
+            PIKA_VERIF_POST("bar.adj", &base, 0, 0);
             [[maybe_unused]] auto phase = arrive(1);
         }
     };
